@@ -64,7 +64,12 @@ func (w *World) runner() *runnerModel {
 	m.fStore = field("variable.Storer", "variableStorer")
 	m.fFuncs = field("*ysgo.functionStorer", "functionStorer")
 	m.fCmds = field("*ysgo.commandStorer", "commandStorer")
-	m.fLP = field("markup.LineParser", "lineParser")
+	// the line parser field is optional: only C14.R4 / C07.R2's exception / C04.R3 look at it
+	if v := structFieldByType(m.T, "markup.LineParser"); v != nil {
+		m.fLP = v
+	} else if v := structFieldByName(m.T, "lineParser"); v != nil {
+		m.fLP = v
+	}
 	m.fDlg = field("*tree.Dialogue", "dialogue")
 
 	api := func(name string) *Func {
